@@ -1536,7 +1536,13 @@ def grounds():
     from contracts import c06
     from pyvc.pack import Ground
 
-    return [Ground(f"{PROP}/sevm.abstraction-tables#name-is-the-definition", c06.ground_abstraction_names, sources=("halmos.solve:refine",))]
+    from contracts.common import ground_script
+
+    return [
+        Ground(f"{PROP}/sevm.abstraction-tables#name-is-the-definition", c06.ground_abstraction_names, sources=("halmos.solve:refine",)),
+        Ground(f"{PROP}/sevm.SEVM.run#EXTCODEHASH#funded-account", ground_script("extcodehash_funded_account.py", "send 1 wei to an account without code, then EXTCODEHASH", "EXTCODEHASH of an existing account without code is keccak256('') (EIP-1052), 0 only for a non-existent one"), sources=("halmos.sevm:SEVM.run",)),
+        Ground(f"{PROP}/sevm.SEVM.create#code-deposit", ground_script("create_code_deposit_rules.py", "CREATE returning code that starts with 0xEF / 24577 bytes of code", "a creation whose returned code the EVM rejects at deposit (EIP-3541 prefix 0xEF, EIP-170 size limit) fails"), sources=("halmos.sevm:SEVM.create",)),
+    ]
 
 
 def build_cases(tier="quick"):
